@@ -330,3 +330,283 @@ theorem scriptLoop_eq_fold (D : Decoders) (rs : List Res) (names : J) (refs : Li
         | ok j' => simp only []; exact ih _ _
 
 end Drx.Dir
+
+namespace Drx.Dir
+open Drx Drx.Riff
+
+/-! ### Mac = PC: the only byte-order dependent step is the key table -/
+
+def KEY : List Char := "KEY*".toList
+
+/-- two resource tables with the same types everywhere and the same chunks everywhere except at entries of type `KEY*` -/
+def AgreeOffKey : List Res → List Res → Prop
+  | [], [] => True
+  | r :: rs, r' :: rs' => r.chunkID = r'.chunkID ∧ (r.chunkID ≠ KEY → r = r') ∧ AgreeOffKey rs rs'
+  | _, _ => False
+
+theorem AgreeOffKey.length {rs rs' : List Res} (h : AgreeOffKey rs rs') : rs.length = rs'.length := by
+  induction rs generalizing rs' with
+  | nil => cases rs' with | nil => rfl | cons _ _ => exact absurd h (by simp [AgreeOffKey])
+  | cons r rs ih =>
+    cases rs' with
+    | nil => exact absurd h (by simp [AgreeOffKey])
+    | cons r' rs' => simp only [List.length_cons]; rw [ih h.2.2]
+
+theorem existsChunk_congr {rs rs' : List Res} (h : AgreeOffKey rs rs') (id : String) : existsChunk rs id = existsChunk rs' id := by
+  induction rs generalizing rs' with
+  | nil => cases rs' with | nil => rfl | cons _ _ => exact absurd h (by simp [AgreeOffKey])
+  | cons r rs ih =>
+    cases rs' with
+    | nil => exact absurd h (by simp [AgreeOffKey])
+    | cons r' rs' =>
+      have := ih h.2.2
+      simp only [existsChunk, List.any_cons] at this ⊢
+      rw [h.1, this]
+
+theorem locateChunk_congr {rs rs' : List Res} (h : AgreeOffKey rs rs') (id : String) (hid : id.toList ≠ KEY) :
+    locateChunk rs id = locateChunk rs' id := by
+  induction rs generalizing rs' with
+  | nil => cases rs' with | nil => rfl | cons _ _ => exact absurd h (by simp [AgreeOffKey])
+  | cons r rs ih =>
+    cases rs' with
+    | nil => exact absurd h (by simp [AgreeOffKey])
+    | cons r' rs' =>
+      have ih' := ih h.2.2
+      unfold locateChunk at ih' ⊢
+      simp only [List.find?_cons]
+      rw [← h.1]
+      by_cases hr : (r.chunkID == id.toList) = true
+      · have : r.chunkID = id.toList := by simpa using hr
+        have hne : r.chunkID ≠ KEY := by rw [this]; exact hid
+        simp only [hr]; rw [h.2.1 hne]
+      · simp only [hr]; exact ih'
+
+theorem optionalChunk_congr {rs rs' : List Res} (h : AgreeOffKey rs rs') (id : String) (hid : id.toList ≠ KEY) (dflt : J) (dec : Bytes → R J) :
+    optionalChunk rs id dflt dec = optionalChunk rs' id dflt dec := by
+  unfold optionalChunk
+  rw [existsChunk_congr h, locateChunk_congr h id hid]
+
+theorem getIdx_rel {rs rs' : List Res} (h : AgreeOffKey rs rs') (n : Nat) :
+    (∃ r r', getIdx rs n = .ok r ∧ getIdx rs' n = .ok r' ∧ r.chunkID = r'.chunkID ∧ (r.chunkID ≠ KEY → r = r'))
+    ∨ (getIdx rs n = .error .index ∧ getIdx rs' n = .error .index) := by
+  induction rs generalizing rs' n with
+  | nil => cases rs' with
+    | nil => right; simp [getIdx]
+    | cons _ _ => exact absurd h (by simp [AgreeOffKey])
+  | cons r rs ih =>
+    cases rs' with
+    | nil => exact absurd h (by simp [AgreeOffKey])
+    | cons r' rs' =>
+      cases n with
+      | zero => left; exact ⟨r, r', by simp [getIdx], by simp [getIdx], h.1, h.2.1⟩
+      | succ n =>
+        have := ih h.2.2 n
+        simpa [getIdx] using this
+
+/-- an index that does not resolve to a `KEY*` entry fetches the same resource from both tables -/
+theorem pyIndex_congr {rs rs' : List Res} (h : AgreeOffKey rs rs') (i : Int)
+    (hk : ∀ r, pyIndex rs i = .ok r → r.chunkID ≠ KEY) : pyIndex rs i = pyIndex rs' i := by
+  have hl := h.length
+  unfold pyIndex at hk ⊢
+  rw [← hl]
+  split
+  · split
+    · rfl
+    · rename_i h1 h2
+      simp only [h1, h2, if_true, if_false] at hk
+      rcases getIdx_rel h (i + (rs.length : Int)).toNat with ⟨r, r', e1, e2, _, hrr⟩ | ⟨e1, e2⟩
+      · rw [e1, e2, hrr (hk r e1)]
+      · rw [e1, e2]
+  · rename_i h1
+    simp only [h1, if_false] at hk
+    rcases getIdx_rel h i.toNat with ⟨r, r', e1, e2, _, hrr⟩ | ⟨e1, e2⟩
+    · rw [e1, e2, hrr (hk r e1)]
+    · rw [e1, e2]
+
+theorem linkLoop_congr_rs (D : Decoders) (rs rs' : List Res) (fm : J) (cast : List CastData) (refs : List Ref) (cd : CastData)
+    (hrs : ∀ rf ∈ refs, pyIndex rs rf.index = pyIndex rs' rf.index) :
+    linkLoop D rs fm cast refs cd = linkLoop D rs' fm cast refs cd :=
+  linkLoop_congr D rs rs' fm cast cast refs cd hrs (fun _ => rfl)
+
+theorem memberEntry_congr (D : Decoders) (rs rs' : List Res) (key : KeyData) (fm : J) (cast : List CastData) (ci : Int)
+    (h1 : pyIndex rs ci = pyIndex rs' ci)
+    (h2 : ∀ refs, keyGet? key ci = some refs → ∀ rf ∈ refs, pyIndex rs rf.index = pyIndex rs' rf.index) :
+    memberEntry D rs key fm cast ci = memberEntry D rs' key fm cast ci := by
+  unfold memberEntry
+  rw [← h1]
+  cases pyIndex rs ci with
+  | error e => rfl
+  | ok res =>
+    simp only []
+    cases res.chunk with
+    | error e => rfl
+    | ok chunk =>
+      simp only []
+      cases D.cast chunk.data with
+      | error e => rfl
+      | ok cd =>
+        simp only []
+        cases hk : keyGet? key ci with
+        | none => rfl
+        | some refs => exact linkLoop_congr_rs D rs rs' fm cast refs cd (h2 refs hk)
+
+theorem castLoop_congr (D : Decoders) (rs rs' : List Res) (key : KeyData) (fm : J) (cas : List Int) (cast : List CastData)
+    (h1 : ∀ ci ∈ cas, ci ≠ 0 → pyIndex rs ci = pyIndex rs' ci)
+    (h2 : ∀ ci ∈ cas, ∀ refs, keyGet? key ci = some refs → ∀ rf ∈ refs, pyIndex rs rf.index = pyIndex rs' rf.index) :
+    castLoop D rs key fm cas cast = castLoop D rs' key fm cas cast := by
+  induction cas generalizing cast with
+  | nil => simp [castLoop]
+  | cons ci rest ih =>
+    have ih' := fun c => ih c (fun x hx => h1 x (by simp [hx])) (fun x hx => h2 x (by simp [hx]))
+    unfold castLoop
+    by_cases h0 : ci = 0
+    · simp only [h0, if_true]; exact ih' _
+    · simp only [h0, if_false]
+      rw [memberEntry_congr D rs rs' key fm cast ci (h1 ci (by simp) h0) (h2 ci (by simp))]
+      cases memberEntry D rs' key fm cast ci with
+      | error e => rfl
+      | ok cd => simp only []; exact ih' _
+
+theorem scriptLoop_congr (D : Decoders) (rs rs' : List Res) (names : J) (refs : List Int) (l j : ScrDict)
+    (h : ∀ i ∈ refs, ¬ i < 0 → pyIndex rs i = pyIndex rs' i) :
+    scriptLoop D rs names refs l j = scriptLoop D rs' names refs l j := by
+  induction refs generalizing l j with
+  | nil => simp [scriptLoop]
+  | cons i rest ih =>
+    have ih' := fun l j => ih l j (fun x hx => h x (by simp [hx]))
+    unfold scriptLoop
+    by_cases hneg : i < 0
+    · simp only [hneg, if_true]; exact ih' _ _
+    · simp only [hneg, if_false]
+      rw [← h i (by simp) hneg]
+      cases pyIndex rs i with
+      | error e => rfl
+      | ok res =>
+        simp only [bind, Except.bind]
+        cases res.chunk with
+        | error e => rfl
+        | ok chunk =>
+          simp only []
+          cases D.script chunk.data names with
+          | error e => rfl
+          | ok s =>
+            simp only []
+            split
+            · exact ih' _ _
+            · cases l.append s.contScrNum s.lingo with
+              | error e => rfl
+              | ok l' =>
+                simp only []
+                cases j.append s.contScrNum s.js with
+                | error e => rfl
+                | ok j' => simp only []; exact ih' _ _
+
+end Drx.Dir
+
+namespace Drx.Dir
+open Drx Drx.Riff
+
+/-- the cast table does not point at a `KEY*` entry -/
+def CasAvoidsKey (D : Decoders) (rs : List Res) : Prop :=
+  ∀ res cc cas, locateChunk rs "CAS*" = .ok res → res.chunk = .ok cc → D.cas cc.data = .ok cas →
+    ∀ ci ∈ cas, ci ≠ 0 → ∀ r, pyIndex rs ci = .ok r → r.chunkID ≠ KEY
+
+/-- no key-table link points at a `KEY*` entry -/
+def LinksAvoidKey (rs : List Res) (key : KeyData) : Prop :=
+  ∀ p ∈ key, ∀ rf ∈ p.2, ∀ r, pyIndex rs rf.index = .ok r → r.chunkID ≠ KEY
+
+/-- the script context does not point at a `KEY*` entry -/
+def LctxAvoidsKey (D : Decoders) (rs : List Res) : Prop :=
+  ∀ res lc refs, locateChunk rs "Lctx" = .ok res → res.chunk = .ok lc → D.lctx lc.data = .ok refs →
+    ∀ i ∈ refs, ¬ i < 0 → ∀ r, pyIndex rs i = .ok r → r.chunkID ≠ KEY
+
+theorem keyGet?_mem (key : KeyData) (ci : Int) (refs : List Ref) (h : keyGet? key ci = some refs) : ∃ p ∈ key, p.2 = refs := by
+  unfold keyGet? at h
+  cases hf : key.find? (·.1 == ci) with
+  | none => simp [hf] at h
+  | some p =>
+    simp [hf] at h
+    exact ⟨p, List.mem_of_find?_eq_some hf, h⟩
+
+theorem scriptsPart_congr (D : Decoders) (rs rs' : List Res) (hag : AgreeOffKey rs rs') (hlctx : LctxAvoidsKey D rs) :
+    scriptsPart D rs = scriptsPart D rs' := by
+  unfold scriptsPart
+  rw [← existsChunk_congr hag "Lctx", ← locateChunk_congr hag "Lctx" (by decide), ← optionalChunk_congr hag "Lnam" (by decide)]
+  split
+  · cases hll : locateChunk rs "Lctx" with
+    | error e => rfl
+    | ok lres =>
+      simp only []
+      cases hlc : lres.chunk with
+      | error e => rfl
+      | ok lc =>
+        simp only []
+        cases hld : D.lctx lc.data with
+        | error e => rfl
+        | ok refs =>
+          simp only []
+          cases optionalChunk rs "Lnam" (.arr []) D.lnam with
+          | error e => rfl
+          | ok names =>
+            simp only []
+            apply scriptLoop_congr
+            intro i hi hneg
+            exact pyIndex_congr hag i (hlctx lres lc refs hll hlc hld i hi hneg)
+  · rfl
+
+theorem assembleK_congr (D : Decoders) (rs rs' : List Res) (key : KeyData) (hag : AgreeOffKey rs rs')
+    (hcas : CasAvoidsKey D rs) (hlinks : LinksAvoidKey rs key) (hlctx : LctxAvoidsKey D rs) :
+    assembleK D rs key = assembleK D rs' key := by
+  unfold assembleK
+  rw [← locateChunk_congr hag "VWCF" (by decide), ← locateChunk_congr hag "CAS*" (by decide),
+    ← scriptsPart_congr D rs rs' hag hlctx, ← optionalChunk_congr hag "VWLB" (by decide),
+    ← optionalChunk_congr hag "VWSC" (by decide), ← optionalChunk_congr hag "Fmap" (by decide)]
+  cases locateChunk rs "VWCF" with
+  | error e => rfl
+  | ok vres =>
+    simp only []
+    cases vres.chunk with
+    | error e => rfl
+    | ok vc =>
+      simp only []
+      cases D.vwcf vc.data with
+      | error e => rfl
+      | ok info =>
+        simp only []
+        cases hcl : locateChunk rs "CAS*" with
+        | error e => rfl
+        | ok cres =>
+          simp only []
+          cases hcc : cres.chunk with
+          | error e => rfl
+          | ok cc =>
+            simp only []
+            cases hcd : D.cas cc.data with
+            | error e => rfl
+            | ok cas =>
+              simp only []
+              have hcastLoop : ∀ fm, castLoop D rs key fm cas [] = castLoop D rs' key fm cas [] := by
+                intro fm
+                apply castLoop_congr
+                · intro ci hci h0
+                  exact pyIndex_congr hag ci (hcas cres cc cas hcl hcc hcd ci hci h0)
+                · intro ci _ refs hk rf hrf
+                  obtain ⟨p, hp, rfl⟩ := keyGet?_mem key ci refs hk
+                  exact pyIndex_congr hag rf.index (hlinks p hp rf hrf)
+              simp only [hcastLoop]
+
+/-- Mac = PC: two resource tables that agree everywhere except in the bytes of their `KEY*` entries (the only chunk that is
+    stored in the container's byte order), whose key tables decode to the same links under their respective byte orders,
+    assemble to the same movie — provided no table of the movie points at the key table itself -/
+theorem assemble_mac_pc (D : Decoders) (rsB rsL : List Res) (hag : AgreeOffKey rsB rsL)
+    (kB kL : Chunk) (resB resL : Res)
+    (hB : locateChunk rsB "KEY*" = .ok resB) (hB' : resB.chunk = .ok kB)
+    (hL : locateChunk rsL "KEY*" = .ok resL) (hL' : resL.chunk = .ok kL)
+    (key : KeyData) (hkB : D.key .be kB.data = .ok key) (hkL : D.key .le kL.data = .ok key)
+    (hcas : CasAvoidsKey D rsB) (hlinks : LinksAvoidKey rsB key) (hlctx : LctxAvoidsKey D rsB) :
+    assemble D .be rsB = assemble D .le rsL := by
+  unfold assemble
+  simp only [hB, hB', hL, hL', hkB, hkL, bind, Except.bind]
+  exact assembleK_congr D rsB rsL key hag hcas hlinks hlctx
+
+end Drx.Dir
